@@ -22,9 +22,13 @@ extern "C" void h_mocklemma(void) {
     __CPROVER_assume(c.sv == SSV_BASE || c.sv == SSV_WITNESS_V0 || c.sv == SSV_TAPSCRIPT || c.sv == SSV_TAPROOT);
     __CPROVER_assume(c.sv != SSV_TAPROOT || H_OP == SOP_CHECKSIG);
     __CPROVER_assume(s0.nOpCount >= 0 && s0.nOpCount <= 201 && s0.cs_first_false == SPEC_NO_FALSE && s0.cs_size <= 1000);
-    for (int i = 0; i < 24; ++i) __CPROVER_assume(on.fad_result[i] >= 0 && on.fad_result[i] <= 3);
-    on.mock_on = true; off = on; off.mock_on = false;
-    u1.ecdsa_calls = 0; u1.schnorr_calls = 0; u1.fad_calls = 0; u1.weight = nondet_long(); __CPROVER_assume(u1.weight >= -1000 && u1.weight <= 4000000); u2 = u1;
+    for (int i = 0; i < VERIF_ORACLE_N; ++i) __CPROVER_assume(on.fad_result[i] >= 0 && on.fad_result[i] <= 3);
+    on.mock_on = true;
+    // (field-wise copy: CBMC's front end cannot generate the default assignment of structs holding arrays of class type)
+    for (int i = 0; i < VERIF_ORACLE_N; ++i) { off.ecdsa_ok[i] = on.ecdsa_ok[i]; off.fad_result[i] = on.fad_result[i]; }
+    off.schnorr_ok = on.schnorr_ok; off.schnorr_err = on.schnorr_err; off.lows_ok = on.lows_ok; off.mock_sig = on.mock_sig; off.mock_key = on.mock_key; off.mock_on = false;
+    u1.ecdsa_calls = 0; u1.schnorr_calls = 0; u1.fad_calls = 0; u1.weight = nondet_long(); __CPROVER_assume(u1.weight >= -1000 && u1.weight <= 4000000);
+    u2.ecdsa_calls = 0; u2.schnorr_calls = 0; u2.fad_calls = 0; u2.weight = u1.weight;
     SpecState sA = s0, sB = s0;
     g_spec_orc = &on; g_spec_use = &u1; SpecOut oA = spec_step(c, sA);
     g_spec_orc = &off; g_spec_use = &u2; SpecOut oB = spec_step(c, sB);
